@@ -3,20 +3,24 @@
 EXTENDS TlsRoute, Json
 
 ExpOf(o) == [class |-> Class(o), firsts |-> o.firsts, carrier |-> o.carrier, snis |-> o.snis,
-             verifies |-> o.verifies, peerHs |-> o.peerHs]
+             verifies |-> o.verifies, peerHs |-> o.peerHs, shared |-> o.shared]
 
 \* one line per (vector, transcription): the abstract vector and the outcome the model computes for it
 Gen == Done => PrintT(<<"VEC", ToJson([v |-> v, asBuilt |-> asBuilt, exp |-> ExpOf(out)])>>)
 
 PAll(x, o) == /\ P_NoClear(x, o) /\ P_Established(x, o) /\ P_Name(x, o) /\ P_FailIsError(x, o)
-              /\ P_OtherNotWrapped(x, o) /\ P_Outcome(x, o)
+              /\ P_OtherNotWrapped(x, o) /\ P_Outcome(x, o) /\ P_PoolClass(x, o)
 FailedClause(x, o) == IF ~P_Outcome(x, o) THEN "Outcome" ELSE IF ~P_NoClear(x, o) THEN "NoClear"
                       ELSE IF ~P_Established(x, o) THEN "Established" ELSE IF ~P_Name(x, o) THEN "Name"
-                      ELSE IF ~P_FailIsError(x, o) THEN "FailIsError" ELSE "OtherNotWrapped"
+                      ELSE IF ~P_FailIsError(x, o) THEN "FailIsError" ELSE IF ~P_OtherNotWrapped(x, o) THEN "OtherNotWrapped"
+                      ELSE "PoolClass"
 \* prediction from the as-built transcription: the vectors on which the pinned code is expected to break a
 \* clause (always TRUE: a report, one ABBAD line per such vector)
 AsBuiltReport == AB => (PAll(v, out) \/ PrintT(<<"ABBAD", ToJson([v |-> v, clause |-> FailedClause(v, out)])>>))
 \* the same as genuine invariants: TLC must report a violation (standing demonstration that the model
 \* distinguishes the as-built behaviour, DESIGN 2.4)
 AsBuiltHolds == AB => PAll(v, out)
+\* the intended transcription with the merged pool key: TLC must refute it (TlsRoute_keymerge.cfg)
+KeyMergeHolds == Claimed => PAll(v, out)
+KeyMergeReport == Claimed => (PAll(v, out) \/ PrintT(<<"KMBAD", ToJson([v |-> v, clause |-> FailedClause(v, out)])>>))
 =============================================================================
